@@ -86,6 +86,7 @@ class CmdWorld:
 
     # -- seams ---------------------------------------------------------------------------------
     def install(self, capture: Callable[[logging.LogRecord], bool] | None = None) -> None:
+        self._is_installed = True
         self.net.install()
         s = self.seams
         s.set(db_handler, "aiosqlite", self.sql)
@@ -118,6 +119,10 @@ class CmdWorld:
         asyncio.set_event_loop(self.loop)
 
     def uninstall(self) -> None:
+        if not getattr(self, "_is_installed", False):
+            self.sql.close_all()
+            return
+        self._is_installed = False
         lg = logging.getLogger("gallia")
         # close leaked zstd handlers so that files are not kept open across runs
         for h in lg.handlers[:]:
